@@ -51,11 +51,14 @@ func C07Spec(quick bool) Spec {
 				seeds = append(seeds, explore.Seed{Name: name, Build: func(c *chain.Chain) sdk.Context {
 					ctx := PreparedSeed("prepared").Build(c)
 					c.Fund(ctx, P, sdk.NewCoins(coin("uregen", 2), coin(IBC, 10)))
+					// D can afford an order priced at 10^20 base units (an 18-decimals denom at a round price)
+					c.Fund(ctx, D, sdk.NewCoins(sdk.NewCoin(IBC, sdk.NewIntFromUint64(1000000000000).MulRaw(1000000000000))))
 					acts := []*explore.Action{
-						Sell(B, B1, "2", coin("uregen", 3), true, nil),       // order 4
-						Sell(C, B1, "1.5", coin(IBC, 7), true, nil),          // order 5
-						Sell(C, B2, Eps, coin("uregen", 1000003), true, nil), // order 6
-						Sell(B, B2, "2", coin("uregen", 1), false, nil),      // order 7: auto-retire forced
+						Sell(B, B1, "2", coin("uregen", 3), true, nil),                                                       // order 4
+						Sell(C, B1, "1.5", coin(IBC, 7), true, nil),                                                          // order 5
+						Sell(C, B2, Eps, coin("uregen", 1000003), true, nil),                                                 // order 6
+						Sell(B, B2, "2", coin("uregen", 1), false, nil),                                                      // order 7: auto-retire forced
+						Sell(C, B1, "1", sdk.NewCoin(IBC, sdk.NewIntFromUint64(10000000000).MulRaw(10000000000)), true, nil), // order 8: ask 10^20
 					}
 					if rb != "" || rs != "" {
 						acts = append(acts, GovFeeParams(G, rb, rs))
@@ -76,8 +79,13 @@ func C07Spec(quick bool) Spec {
 		tag    string
 	}
 	orders := []osel{{B, 2, true, "o4"}, {C, 1, true, "o5"}, {C, 2, true, "o6"}, {B, 3, false, "o7"}}
+	// order 8 (C's third open order after the histories: 3,5,6,8 -> k=3) is bought whole and in part
+	for _, q := range []string{"", "0.5", "0.01"} {
+		evs = append(evs, Buy(D, fmt.Sprintf("o8-ask-1e20,q=%s", qn(q)), BuySpec{Seller: C, K: 3, Qty: q, DAR: true, FeeMode: "floor"}))
+		evs = append(evs, Buy(D, fmt.Sprintf("o8-ask-1e20,q=%s,fee=floor-1", qn(q)), BuySpec{Seller: C, K: 3, Qty: q, DAR: true, FeeMode: "floor-1"}))
+	}
 	qtys := []string{Eps, "0.5", "1.5", "", "+eps", "=padded", "=sci"}
-	fees := []string{"absent", "zero", "floor-1", "floor", "large"}
+	fees := []string{"absent", "zero", "floor", "large"} // "floor-1" needs a buyer fee of at least one unit: order 8 below
 	for _, o := range orders {
 		for _, q := range qtys {
 			for _, f := range fees {
